@@ -9,6 +9,7 @@ from hgv.trace import Trace
 from hgv.worker import HarnessError
 
 ID = "C12"
+ASAN_THOROUGH = True   # thorough tier runs against the AddressSanitizer build
 RULE = ("switch_(key, {k: branch...}[, default][, reload_on_ticked]) over 2-3 generated branches (stateless, stateful accumulator / "
         "counter, self-scheduling timer, key-consuming, different bodies), a scripted key history with rapid flips, flips in the same "
         "cycle as an input tick, repeated key values and returns to an earlier key (>= 3 switches to reuse the two child slots), and an "
